@@ -244,6 +244,12 @@ fn writer_case_f<const N: usize>(wfault: bool) {
     let fail_at: usize = if wfault { let x: usize = kani::any(); kani::assume(1 <= x && x <= 3); x } else { 0 };
     let fail_zero: bool = wfault && kani::any();
     let payload: [u8; N] = kani::any();
+    // the caller may come back after a Pending with a LONGER buffer (it appended data): the record in progress must
+    // still carry exactly the bytes and the length announced in its header
+    let mut big = [0u8; 16];
+    let mut i = 0; while i < N { big[i] = payload[i]; i += 1; }
+    big[N] = kani::any(); big[N + 1] = kani::any();
+    let grow: usize = if kani::any() { 2 } else { 0 };
     let id: u16 = kani::any();
     kani::assume(id != 0);
     let stream = if kani::any() { fcgi::RecordType::Stdout } else { fcgi::RecordType::Stderr };
@@ -256,7 +262,8 @@ fn writer_case_f<const N: usize>(wfault: bool) {
     let mut cx = noop_cx();
     let mut pendings = 0;
     let res = loop {
-        match Pin::new(&mut sw).poll_write(&mut cx, &payload) {
+        let offered: &[u8] = if pendings == 0 { &payload } else { &big[..N + grow] };
+        match Pin::new(&mut sw).poll_write(&mut cx, offered) {
             Poll::Ready(r) => break r,
             Poll::Pending => {
                 pendings += 1;
@@ -281,7 +288,8 @@ fn writer_case_f<const N: usize>(wfault: bool) {
             return;
         }
     };
-    assert!(n == N, "C10: a successful write must report exactly the payload length");
+    assert!(n == N, "C10: a successful write must report exactly the payload length announced in the record header (also when the caller came back with a longer buffer)");
+    kani::cover!(pendings == 1 && grow == 2, "record completed after the caller came back with a longer buffer");
     assert!(sw.lock.is_none() && sw.head.content_length == 0 && sw.head.padding_length == 0, "writer not reset after a complete record");
     let g = arc.try_lock().expect("C10: output lock still held after a complete record");
     assert!(g.pos == g.exp_len, "C10: the record was not sent completely (header + payload + padding)");
@@ -300,7 +308,7 @@ macro_rules! writer_harness {
 }
 
 // @harness name=c10_writer_3 props=C10,C07 tier=quick timeout=2400 rmbody=ioerr,nogrow,nowaiters mem=20 unwindset=StreamWriter<.*>.as.futures_util::AsyncWrite>::poll_write$:6;drop_glue::<.slab::Entry<.*>.>$:2 dead=2
-// @bound one StreamWriter (Stdout|Stderr, any id), payload of 3 symbolic bytes (5 padding bytes); the transport checks every vectored write against the expected record and accepts any 1..n bytes with <= 3 short writes (cuts inside the header, at the seams, inside the padding) and <= 1 Pending; polled to completion
+// @bound one StreamWriter (Stdout|Stderr, any id), payload of 3 symbolic bytes (5 padding bytes); the transport checks every vectored write against the expected record and accepts any 1..n bytes with <= 3 short writes (cuts inside the header, at the seams, inside the padding) and <= 1 Pending; polled to completion; after a Pending the caller may offer a buffer that is 2 bytes longer
 // @functions StreamWriter::poll_write, RepeatableLockFuture::poll, RecordHeader::{set_lengths,to_bytes,padding_bytes}
 writer_harness!(c10_writer_3, 3);
 
@@ -641,7 +649,11 @@ impl AsyncRead for CountR {
         if buf.is_empty() { this.empty_reads += 1; return Poll::Ready(Ok(0)); }
         let left = if this.max_calls != 0 && this.calls >= this.max_calls { 0 } else { this.avail - this.pos };
         if left == 0 {
-            if this.fail == 1 { this.said_err = true; return Poll::Ready(Err(io::ErrorKind::BrokenPipe.into())); }
+            // a failing transport reports its error ONCE (kind 1: BrokenPipe, kind 2: Interrupted), end of file afterwards
+            if this.fail != 0 && !this.said_err {
+                this.said_err = true;
+                return Poll::Ready(Err(if this.fail == 1 { io::ErrorKind::BrokenPipe } else { io::ErrorKind::Interrupted }.into()));
+            }
             this.said_eof = true;
             return Poll::Ready(Ok(0));
         }
@@ -735,7 +747,8 @@ fn glue_poll_read_case(buffered_max: usize, pend_sym: bool, d_fixed: Option<usiz
     let buffered: usize = if buffered_max == 0 { 0 } else { let x: usize = kani::any(); kani::assume(x <= buffered_max); x };
     let pending_out: usize = if pend_sym && kani::any() { 2 } else { 0 };
     let mut r = CountR::new(2, 1);
-    r.fail = if kani::any() { 1 } else { 0 };
+    r.fail = { let f: u8 = kani::any(); kani::assume(f <= 2); f };
+    let rfail = r.fail;
     let mut w0 = CountW::new(1, 1);
     unsafe { GW_FAILED = false; GW_AFTER_FAIL = 0; }
     if wfault {
@@ -794,7 +807,9 @@ fn glue_poll_read_case(buffered_max: usize, pend_sym: bool, d_fixed: Option<usiz
             }
             assert!(req.input.empty_reads == 0 || unsafe { sv::GS_UNCONSUMED } == sv::B, "C12/C07: the transport was offered an empty buffer (its 0-byte answer is then taken for end of file) although the parser's buffer has reclaimable space");
             if req.input.said_eof { assert!(k == io::ErrorKind::UnexpectedEof, "C12: end of file inside a stream must surface as UnexpectedEof"); }
-            if req.input.said_err { assert!(k == io::ErrorKind::BrokenPipe, "C12: the transport's read error must be passed on unchanged"); }
+            // (an Interrupted read may legitimately be retried, so only BrokenPipe is required to surface as such)
+            if req.input.said_err && rfail == 1 && !req.input.said_eof { assert!(k == io::ErrorKind::BrokenPipe, "C12: the transport's read error must be passed on unchanged"); }
+            kani::cover!(req.input.said_err && rfail == 2, "transport read failed with Interrupted");
             kani::cover!(k == io::ErrorKind::UnexpectedEof, "EOF inside the stream");
             kani::cover!(k == io::ErrorKind::ConnectionAborted, "abort reported by the parser");
             kani::cover!(k == io::ErrorKind::BrokenPipe, "transport error passed on");
@@ -821,6 +836,8 @@ fn glue_poll_read_case(buffered_max: usize, pend_sym: bool, d_fixed: Option<usiz
             assert!(req.parser.stream_buffer().len() == unsafe { sv::GS_POS }, "C09: stream bytes were delivered by the parser into the caller's buffer but the call returned Pending (bytes lost)");
         }
     }
+    // at every exit, every byte read from the transport has been handed to the parser exactly once
+    assert!(unsafe { sv::GS_FED } == req.input.pos, "C12/C09: the bytes handed to the parser are not exactly the bytes read from the transport (a read count was dropped or fed twice)");
     if filter { assert!(!req.writeable || on_final, "C09: the request reports itself writeable although an input stream before its last one is still active"); }
     std::mem::forget(req);
 }
@@ -1007,7 +1024,7 @@ pub(crate) fn poll_input_contract<'a, R: AsyncRead + Unpin, W: AsyncWrite + Unpi
     }
 }
 
-// @harness name=c11_close_not_writeable props=C11,C07 tier=quick timeout=2400 rmbody=ioerr,nogrow,nonv,nowaiters,nodropreq,noparse mem=30 dead=1 unwindset=WriteAll<.*>.as.futures_util::Future>::poll$:3;drop_glue::<.slab::Entry<.*>.>$:2
+// @harness name=c11_close_not_writeable props=C11,C07,C17 tier=quick timeout=2400 rmbody=ioerr,nogrow,nonv,nowaiters,nodropreq,noparse mem=30 dead=1 unwindset=WriteAll<.*>.as.futures_util::Future>::poll$:3;drop_glue::<.slab::Entry<.*>.>$:2
 // @bound Request::close(status) for a request that is NOT yet writeable (handler returned before its last input stream ended), at a record boundary, KeepConn set; poll_input replaced by its contract (Ok / ConnectionAborted / other error; no Pending: one poll); ExitStatus Overloaded or Complete(any code, incl. 'ABRT'); writer counting, accepts everything at once
 // @functions Request::close, Request::writeable, make_request_epilogue, stream::Parser::{set_stream,into_request_parser}
 #[kani::proof]
